@@ -802,6 +802,8 @@ func (c *Client) logs(ctx context.Context, url string, filter *glf.Filter, bm bl
 		return fmt.Errorf("rpc=eth_getLogs %w", lresp.Error)
 	case hresp.Header == nil:
 		return fmt.Errorf("eth backend missing logs for block: %d", toBlock)
+	case lresp.Result == nil:
+		return fmt.Errorf("rpc=eth_getLogs missing result for blocks: %d-%d", fromBlock, toBlock)
 	}
 	var logsByTx = map[key][]logResult{}
 	for i := range lresp.Result {
